@@ -1,5 +1,6 @@
 """C11 - ill-formed but grammatical programs are refused, never silently accepted (GRD/EXH/SIB; DESIGN 5/C11)."""
 import ast
+import re
 import itertools
 
 from ..report import Inconclusive
@@ -23,20 +24,21 @@ def run(rep, tier):
               "np.float64 IS-A float, np.complex128 IS-A complex, np.int64 is not an int, bool IS-A int")
     ix = common.index(rep)
     G = gm.Grammar(gm.read(gm.FILES["g4"], rep))
-    c11_1(rep, ix)
+    common.guarded(rep, "C11.1", c11_1, rep, ix)
     # the membership test is only meaningful if the table holds nothing of an earlier (possibly failed) load: clear-before-use (shared with C12)
     from . import c12
     E = common.eff(rep)
     gen = gm.class_tables(gm.read(gm.FILES["py_listener"], rep), "blackbirdListener")
     tables = c12.inventory(rep, E, ix)
     c12.c12_2(rep, ix, G, tables, {n.name for n in gen["cls"].body if isinstance(n, ast.FunctionDef)})
-    c11_2(rep, ix, G)
-    c11_3(rep, ix)
-    c11_4(rep, ix)
-    c11_5(rep, ix)
+    # every sub-rule runs on its own: an idiom one of them does not recognise must not hide the verdicts of the others
+    common.guarded(rep, "C11.2", c11_2, rep, ix, G)
+    common.guarded(rep, "C11.3", c11_3, rep, ix)
+    common.guarded(rep, "C11.4", c11_4, rep, ix)
+    common.guarded(rep, "C11.5", c11_5, rep, ix)
     rep.rule("C07.4", "include call checks (arity, template / keyword set) dominate the expansion (shared with C07)", floor=64)
-    c07.c07_4(rep, ix)
-    c11_7(rep, ix)
+    common.guarded(rep, "C07.4", c07.c07_4, rep, ix)
+    common.guarded(rep, "C11.7", c11_7, rep, ix)
 
 
 def table_loads(fn, table=TABLE):
@@ -373,43 +375,49 @@ def c11_5(rep, ix, R="C11.5"):
     f = ix.func(LOOP)
     fn = f.node
     stores = [n for n in walk_shallow(fn) if isinstance(n, ast.Assign) and isinstance(n.targets[0], ast.Subscript) and u(n.targets[0].value) == TABLE]
-    if len(stores) != 1:
-        raise Inconclusive("exitForloop: expected one binding of the loop variable in %s, found %d" % (TABLE, len(stores)))
-    st = stores[0]
-    stored = st.value
-    if not isinstance(stored, ast.Name):
-        rep.bad(R, ix.site(f, st), "the bound value is the cast result", "stores `%s`" % u(stored), key="stored")
-        return
-    defs = [n for n in walk_shallow(fn) if isinstance(n, ast.Assign) and any(isinstance(t, ast.Name) and t.id == stored.id for t in n.targets)]
-    loopfor = [n for n in walk_shallow(fn) if isinstance(n, ast.For) and st in list(ast.walk(n))]
+    if not stores:
+        raise Inconclusive("exitForloop: expected a binding of the loop variable in %s, found none" % TABLE)
+    loopfor = [n for n in walk_shallow(fn) if isinstance(n, ast.For) and stores[0] in list(ast.walk(n))]
     loopvar = u(loopfor[0].target) if loopfor else None
-    okdefs = bool(defs)
-    for d in defs:
-        v = d.value
-        good = isinstance(v, ast.Call) and isinstance(v.func, ast.Subscript) and u(v.func.value) == "PYTHON_TYPES" and "vartype().getText()" in resolved_text(fn, v.func.slice, d) \
-            and len(v.args) == 1 and u(v.args[0]) == loopvar
-        rep.check(good, R, ix.site(f, d), "`%s` casts the loop value with the declared type's constructor" % " ".join(u(d).split())[:70], "every binding of the stored name must be PYTHON_TYPES[<declared type>](<loop value>)",
-                  key="cast|" + " ".join(u(d).split())[:70])
-        okdefs = okdefs and good
-    # equality guard
-    for equal in (True, False):
-        def atom(node, equal=equal):
-            if isinstance(node, ast.Compare) and len(node.ops) == 1 and {u(node.left), u(node.comparators[0])} == {stored.id, loopvar}:
-                if isinstance(node.ops[0], ast.NotEq):
-                    return not equal
-                if isinstance(node.ops[0], ast.Eq):
-                    return equal
-            if isinstance(node, ast.Call) and not node.args and isinstance(node.func, ast.Attribute) and node.func.attr in ("NAME", "vartype"):
-                return "TOK"
-            return AEval.NO
-        r = Reach(fn, st).may_reach(atom)
-        rep.check(r == equal, R, ix.site(f, st), "the binding is %s when the cast value %s the listed value" % ("reachable" if equal else "not reachable", "equals" if equal else "differs from"),
-                  key="equal|%s" % equal)
-    # the failing edge raises ValueError (possibly re-raised by the handler)
-    trys = [n for n in walk_shallow(fn) if isinstance(n, ast.Try) and pos(st) > pos(n) and any(x is d for d in defs for x in ast.walk(n))]
-    for t in trys:
-        for h in t.handlers:
-            rep.check(always_raises(h.body), R, ix.site(f, h), "the handler around the cast re-raises", key="handler")
+    for k_, st in enumerate(stores):
+        tag = "" if len(stores) == 1 else "binding %d: " % (k_ + 1)
+        stored = st.value
+        if not isinstance(stored, ast.Name):
+            rep.bad(R, ix.site(f, st), "%sthe bound value is the cast result" % tag, "stores `%s`" % u(stored), key="stored|%d" % k_)
+            continue
+        defs = [n for n in walk_shallow(fn) if isinstance(n, ast.Assign) and any(isinstance(t, ast.Name) and t.id == stored.id for t in n.targets)]
+        okdefs = bool(defs)
+        if not defs:
+            rep.bad(R, ix.site(f, st), "%sthe bound value is the result of casting this loop value with the declared type's constructor" % tag,
+                    "`%s` is not assigned from a cast in the loop (e.g. it iterates a pre-converted collection: the per-value check no longer guards the binding)" % stored.id, key="nocast|%d" % k_)
+        for d in defs:
+            v = d.value
+            good = isinstance(v, ast.Call) and isinstance(v.func, ast.Subscript) and u(v.func.value) == "PYTHON_TYPES" and "vartype().getText()" in resolved_text(fn, v.func.slice, d) \
+                and len(v.args) == 1 and u(v.args[0]) == loopvar
+            rep.check(good, R, ix.site(f, d), "%s`%s` casts the loop value with the declared type's constructor" % (tag, re.sub(r"_r\d+", "<result>", " ".join(u(d).split())[:70])),
+                      "every binding of the stored name must be PYTHON_TYPES[<declared type>](<loop value>); this one stores a value computed some other way", key="cast|%d|" % k_ + re.sub(r"_r\d+", "_r", " ".join(u(d).split())[:60]))
+            okdefs = okdefs and good
+        if not okdefs:
+            continue
+        # equality guard
+        for equal in (True, False):
+            def atom(node, equal=equal, stored=stored):
+                if isinstance(node, ast.Compare) and len(node.ops) == 1 and {u(node.left), u(node.comparators[0])} == {stored.id, loopvar}:
+                    if isinstance(node.ops[0], ast.NotEq):
+                        return not equal
+                    if isinstance(node.ops[0], ast.Eq):
+                        return equal
+                if isinstance(node, ast.Call) and not node.args and isinstance(node.func, ast.Attribute) and node.func.attr in ("NAME", "vartype"):
+                    return "TOK"
+                return AEval.NO
+            r = Reach(fn, st).may_reach(atom)
+            rep.check(r == equal, R, ix.site(f, st), "%sthe binding is %s when the cast value %s the listed value" % (tag, "reachable" if equal else "not reachable", "equals" if equal else "differs from"),
+                      key="equal|%d|%s" % (k_, equal))
+        # the failing edge raises ValueError (possibly re-raised by the handler)
+        trys = [n for n in walk_shallow(fn) if isinstance(n, ast.Try) and pos(st) > pos(n) and any(x is d for d in defs for x in ast.walk(n))]
+        for t in trys:
+            for h in t.handlers:
+                rep.check(always_raises(h.body) or handler_ok(t, h), R, ix.site(f, h), "the handler around the cast re-raises", key="handler|%d" % k_)
 
 
 # ------------------------------------------------------------------------------------ C11.7 no swallowing
@@ -432,8 +440,21 @@ def c11_7(rep, ix):
                         continue
                     rep.check(handler_ok(t, h), R, ix.site(f, h), "`except %s` in %s re-raises on every path (or is a fallback that recomputes the protected value)" % (u(h.type) if h.type else "", q),
                               key="%s|%s" % (q, u(h.type) if h.type else "bare"))
-    # warnings must not be turned into silent success either: `warnings.simplefilter`/catch_warnings are not used
+    # warnings must not be turned into silent success either: no global filter changes, and a refusal is never made to depend on whether a
+    # warning happens to be recorded (with the caller's filters set to "ignore" nothing is recorded and the value is accepted)
     for q, f in ix.funcs.items():
-        for c in walk_shallow(f.node):
-            if isinstance(c, ast.Call) and u(c.func) in ("warnings.simplefilter", "warnings.filterwarnings", "np.seterr", "numpy.seterr"):
+        orig = getattr(f, "orig", None) or f.node
+        scoped = set()
+        for w in ast.walk(orig):
+            if isinstance(w, ast.With) and any(isinstance(it.context_expr, ast.Call) and u(it.context_expr.func) in ("warnings.catch_warnings", "catch_warnings") for it in w.items):
+                first = w.body[0] if w.body else None
+                own = isinstance(first, ast.Expr) and isinstance(first.value, ast.Call) and u(first.value.func) in ("warnings.simplefilter", "simplefilter") and first.value.args \
+                    and isinstance(first.value.args[0], ast.Constant) and first.value.args[0].value in ("always", "error")
+                if own:
+                    scoped.add(id(first.value))
+                rep.check(own, R, ix.site(f, w), "a block that inspects / converts warnings installs its own filter first (\"always\" or \"error\")",
+                          "`%s` records warnings under whatever filters the process has: with warnings ignored nothing is recorded and the check it feeds never fires" % " ".join(u(w.items[0].context_expr).split())[:60],
+                          key=q + "|catch_warnings")
+        for c in ast.walk(orig):
+            if isinstance(c, ast.Call) and u(c.func) in ("warnings.simplefilter", "warnings.filterwarnings", "np.seterr", "numpy.seterr") and id(c) not in scoped:
                 rep.bad(R, ix.site(f, c), "the package does not change global warning / floating-point error settings", u(c), key=q + "|" + u(c.func))
